@@ -423,11 +423,17 @@ class DocGen:
         self.stats = {"fields": 0, "aliases": 0, "fragments": 0, "inline": 0, "directives": 0, "vars": 0, "merged": 0, "depth": 0}
         self.pending_var_uses = []   # variables used inside fragments, must be declared by every op spreading them
 
+    bad_var_defaults = 0.0    # probability of a variable default literal of the WRONG KIND with a look-alike text (C04 / C16)
+
     def new_var(self, ty, vars_):
         name = f"v{len(vars_)}"
         d = None
         if not is_nn(ty) and self.r.random() < 0.3 and base(ty) in self.sg.leaf_names:
             d = self.sg.const_literal(ty, 0)
+        if not is_nn(ty) and "n" in ty and self.bad_var_defaults and self.r.random() < self.bad_var_defaults:
+            wrong = {"String": [vint(12), vint(1), vfloat("1.5"), vbool(True)], "Int": [vstr("12"), vstr("1"), vfloat("1.5"), vbool(True)],
+                     "Float": [vstr("1.5"), vstr("12"), vbool(False)], "Boolean": [vstr("true"), vint(1), vint(0)], "ID": [vfloat("1.5"), vbool(True)]}.get(ty["n"])
+            if wrong: d = self.r.choice(wrong)
         vars_[name] = (ty, d)
         self.stats["vars"] += 1
         return name
